@@ -8,13 +8,17 @@ use crate::scenario::Scenario;
 
 pub mod common;
 pub mod c02;
+pub mod c04;
 pub mod c05;
 pub mod c06;
 pub mod c07;
 pub mod c08;
+pub mod c09;
+pub mod c10;
+pub mod c13;
 
 pub fn all() -> Vec<&'static dyn Prop> {
-    vec![&c02::C02, &c05::C05, &c06::C06, &c07::C07, &c08::C08]
+    vec![&c02::C02, &c04::C04, &c05::C05, &c06::C06, &c07::C07, &c08::C08, &c09::C09, &c10::C10, &c13::C13]
 }
 
 pub fn by_id(id: &str) -> Option<&'static dyn Prop> {
@@ -29,6 +33,11 @@ pub fn exec(ex: &Exec, st: &mut Stats) -> Out {
     st.add("polls", o.polls);
     st.add("transport_calls", o.tcalls as u64);
     st.add("fired:suspension", o.injected);
+    for e in &o.events {
+        if matches!(e, Ev::Err(microscpi::Error::TooMuchData) | Ev::Err(microscpi::Error::SystemError)) {
+            st.bump("reach:response_did_not_fit");
+        }
+    }
     let mut prev_fill = false;
     let mut prev_last_nl = true;
     let mut delivered = 0usize;
